@@ -387,8 +387,13 @@ def run_check(pid, mod, tier, seed, t0):
     obs, compiled, ob_log = obligations(mod.PROPS_FILE) if tie_ok else ([], False, "translator failed")
     # further files of obligations, compiled separately: a tie theorem that breaks (an edited function in the
     # repository) must not un-discharge the theorems it has nothing to do with
+    extra_results = {}
+    if tie_ok and extra_props:
+        with concurrent.futures.ThreadPoolExecutor(min(NPROC, len(extra_props))) as ex:     # one coqc per file, side by side
+            for f, r in zip(extra_props, ex.map(obligations, extra_props)):
+                extra_results[f] = r
     for f in (extra_props if tie_ok else []):
-        o2, c2, l2 = obligations(f)
+        o2, c2, l2 = extra_results[f]
         if not o2:
             o2 = [{"name": "(no theorem found in %s)" % f, "discharged": False, "assumptions": None}]
         obs += o2
